@@ -75,3 +75,12 @@ Example C05_example : policy_to_evaluate
     [(enforce_level_label, "Baseline"%string)]).
 Proof. exact C05_example_proof. Qed.
 Print Assumptions C05_example.
+
+(** ---- side conditions on the constants regenerated from the source (Gen/Constants.v) ---- *)
+From PSA Require Import Proofs.Constants_table.
+From PSA Require Gen.Constants.
+Theorem C05_label_keys_are_source :
+  Gen.Constants.gen_label_keys = [enforce_level_label; enforce_version_label; audit_level_label; audit_version_label;
+                                  warn_level_label; warn_version_label].
+Proof. exact label_keys_are_source. Qed.
+Print Assumptions C05_label_keys_are_source.
